@@ -177,6 +177,54 @@ def known_findings(pid):
     return out
 
 
+def shrink_case(case, P, hbin, driver, drv_arg, budget=400):
+    """delta-debugging on the tokens of one failing case line: delete tokens (events / operations) as long as harness and driver
+    still accept the line and still disagree on the observables the property owns. Returns (shrunk line, impl, model) or None."""
+    def verdicts(cands):
+        rc1, impl, _ = run_prog([hbin], cands)
+        rc2, model, _ = run_prog([driver] + drv_arg.split(), cands)
+        out = []
+        if len(impl) != len(cands) or len(model) != len(cands):
+            return [None] * len(cands)
+        for c, a, b in zip(cands, impl, model):
+            if a in ("NOIMPL", "BADLINE", "") or b in ("NOIMPL", "BADLINE", ""):
+                out.append(None); continue
+            pre = P["precompare"](c, a, b) if "precompare" in P else None
+            if pre is not None:
+                v = pre[0]
+            else:
+                lm = P["line_mask"](c) if "line_mask" in P else P["mask"]
+                aa, bb = (P["project"](c, a), P["project"](c, b)) if "project" in P else (a, b)
+                v = wire.compare_lines(aa, bb, lm, P.get("tol"), P.get("float_value_eq", False))[0]
+            if v == "hard" and "accept" in P and P["accept"](c, a, b):
+                v = "same"
+            out.append((a, b) if v == "hard" else None)
+        return out
+    toks = case.split(" ")
+    keep = 2 if len(toks) > 2 else len(toks)        # group and op are never removed
+    best = None
+    n = 2
+    spent = 0
+    while len(toks) - keep >= 1 and spent < budget:
+        body = toks[keep:]
+        size = max(1, len(body) // n)
+        cands = []
+        for i in range(0, len(body), size):
+            cands.append(" ".join(toks[:keep] + body[:i] + body[i + size:]))
+        spent += len(cands)
+        vs = verdicts(cands)
+        hit = next((k for k, v in enumerate(vs) if v is not None), None)
+        if hit is not None:
+            toks = cands[hit].split(" ")
+            best = (cands[hit],) + vs[hit]
+            n = max(n - 1, 2)
+        elif size == 1:
+            break
+        else:
+            n = min(len(body), n * 2)
+    return best
+
+
 def source_fingerprint():
     """sha256 over /repo's src/ tree and Cargo.toml (the files a change to the crate can touch)"""
     h = hashlib.sha256()
@@ -446,15 +494,32 @@ def main():
     found = [v for v in violations if v.get("found_input") and "case" in v]
     # shrink: prefer the shortest failing case line
     found.sort(key=lambda v: len(v["case"]))
+    # shrink the shortest model/implementation disagreement to a minimal operation sequence (same configuration)
+    shrunk = None
+    try:
+        cand = next((v for v in found if v.get("kind") == "model/implementation disagreement"), None)
+        if cand is not None and not replay:
+            cfg = next(((f_, d_) for (f_, d_) in configs if (f_ or "default") == cand.get("config")), None)
+            if cfg is not None:
+                hb = build_harness(cfg[0], log)
+                r = shrink_case(cand["case"], P, hb, driver, cfg[1]) if hb else None
+                if r is not None and len(r[0]) < len(cand["case"]):
+                    shrunk = {"case": r[0], "impl": r[1], "model": r[2], "config": cand.get("config"),
+                              "from": cand["case"][:200], "note": "delta-debugged: every remaining token is needed for the disagreement"}
+    except Exception as ex:          # shrinking is a convenience; never let it mask the verdict
+        shrunk = {"error": repr(ex)[:200]}
     rp = os.path.join(VERIF, "replay", "%s_%s_%d.json" % (pid, tier, seed))
     with open(rp, "w") as f:
         json.dump({"property": pid, "tier": tier, "seed": seed,
-                   "cases": [v["case"] for v in (found or violations) if "case" in v][:20],
+                   "cases": ([shrunk["case"]] if shrunk and "case" in shrunk else []) + [v["case"] for v in (found or violations) if "case" in v][:20],
+                   "shrunk": shrunk,
                    "violations": violations[:20],
                    "broken": [x for x in lean["failures"]],
                    "note": "replay with: ./check %s --replay %s" % (pid, rp)}, f, indent=1)
     tail = "" if found else " no-failing-input-found"
     print("VIOLATION property=%s replay=%s%s" % (pid, rp, tail))
+    if shrunk and "case" in shrunk:
+        print("  minimal failing case: %s   impl: %s   model: %s" % (shrunk["case"][:300], shrunk["impl"][:150], shrunk["model"][:150]))
     for v in violations[:3]:
         print("  " + json.dumps({k: v[k] for k in v if k != "log"})[:600])
     sys.exit(1)
